@@ -188,3 +188,59 @@ def find_counterexample(real_assertions, spec_lines, subst, timeout_ms=20000):
     if r == z3.unknown:
         return "unknown", None
     return "none", None
+
+
+def equivalence(real_assertions, lean_lines, subst, timeout_ms=20000):
+    """compare the conjunction of the real assertions with the conjunction of the model's
+    (rebuilt from the Lean printout, uuid-named variables aligned by `subst`).
+    Returns (verdict, witness): verdict in
+      "equivalent"      – both implications are valid (a harmless rewrite)
+      "real_admits_more"– witness satisfies the real assertions but not the model's
+      "real_admits_less"– witness satisfies the model's assertions but not the real ones
+      "unknown"         – z3 gave up (quantifiers, timeout)"""
+    b = Builder(sorts_of(real_assertions), subst)
+    try:
+        model_fs = [b.fml(parse_sexp(l)) for l in lean_lines]
+    except Exception as e:  # noqa: BLE001
+        return "unknown", {"error": f"{type(e).__name__}: {e}"}
+    if any(z3.is_quantifier(a) for a in real_assertions) or any("forall" in l for l in lean_lines):
+        return "unknown", {"reason": "quantified formulas"}
+
+    def ask(pos, neg):
+        s = z3.Solver()
+        s.set("timeout", timeout_ms)
+        s.add(pos)
+        s.add(z3.Not(z3.And(neg)) if neg else z3.BoolVal(False))
+        r = s.check()
+        if r == z3.sat:
+            m = s.model()
+            return "sat", {d.name(): str(m[d]) for d in m.decls() if d.arity() == 0}
+        return ("unsat" if r == z3.unsat else "unknown"), None
+
+    def falsified(fs, vals):
+        s = z3.Solver()
+        consts = []
+        for n, v in vals.items():
+            if v in ("True", "False"):
+                consts.append(z3.Bool(n) == (v == "True"))
+            elif INT_RE.match(v):
+                consts.append(z3.Int(n) == int(v))
+        out = []
+        for i, f in enumerate(fs):
+            s.push()
+            s.add(consts)
+            s.add(f)
+            if s.check() == z3.unsat:
+                out.append(i)
+            s.pop()
+        return out
+
+    r1, w1 = ask(list(real_assertions), model_fs)
+    if r1 == "sat":
+        return "real_admits_more", {"model": w1, "model_formulas_false": falsified(model_fs, w1)[:10]}
+    r2, w2 = ask(model_fs, list(real_assertions))
+    if r2 == "sat":
+        return "real_admits_less", {"model": w2, "real_assertions_false": falsified(list(real_assertions), w2)[:10]}
+    if r1 == "unsat" and r2 == "unsat":
+        return "equivalent", None
+    return "unknown", None
